@@ -663,7 +663,7 @@ impl<'a> RunNow<'a> for HTl {
 
 pub struct HCtl<M: Menu> {
     uid: u32,
-    k: u8,
+    k: u32,
     time: u8,
     ctx: Arc<Ctx>,
     obs: u64,
@@ -774,7 +774,7 @@ impl<'a, 'b, 'c, M: Menu> BatchController<'a, 'b, 'c> for HCtl<M> {
 /// Controller for `MultiDispatcher`: `plan()` returns k.
 pub struct HMulti<M: Menu> {
     uid: u32,
-    k: u8,
+    k: u32,
     ctx: Arc<Ctx>,
     obs: u64,
     _m: PhantomData<M>,
